@@ -22,9 +22,8 @@ def _merge(a: dict, b: dict, path=None):
         if key in a:
             if isinstance(a[key], dict) and isinstance(b[key], dict):
                 _merge(a[key], b[key], path + [str(key)])
-            elif a[key] == b[key]:
-                pass  # same leaf value
             else:
+                # b always wins, also when the values compare equal (0 == False, 1 == 1.0)
                 a[key] = b[key]
         else:
             a[key] = b[key]
